@@ -53,6 +53,9 @@ func (e *C15) one(ctx *core.Ctx) {
 	simapi.SetNow(now)
 	s := simapi.NewStore()
 	nn := 3 + r.Intn(8)
+	if r.Intn(4) == 0 {
+		nn = 13 + r.Intn(40) // a cluster large enough for sort algorithms, quotas and percentages to behave differently
+	}
 	repOpts := []intstr.IntOrString{intstr.FromInt(1), intstr.FromInt(2), intstr.FromInt(3), intstr.FromString("25%"), intstr.FromString("50%"), intstr.FromString("100%")}
 	rep := repOpts[r.Intn(len(repOpts))]
 	useAA := r.Intn(2) == 0
